@@ -13,10 +13,9 @@
    revents table, no pending set inside the loop: an identity snapshot of the IO watches taken
    at ppoll, identity snapshots of the watchers of each delivered signal, each still live at
    its turn).  C18_refines: for every callback environment and script (hypothesis act_ok:
-   registered descriptors are >= 0, and a callback watching signal S does not register a
-   further watch of S -- whether tickit_evloop_invoke_sigwatches reaches a watch appended
-   during the walk depends on whether the running watch was the last one) and every ppoll
-   outcome stream, the iteration model of the repaired loop -- slot table with revents,
+   registered descriptors are >= 0 -- nothing else: callbacks may cancel and register any watch,
+   watches of the signal being dispatched included; such a watch is passed over by the walk
+   under way, fixes/C18-sigwatch-walk-snapshot.patch) and every ppoll outcome stream, the iteration model of the repaired loop -- slot table with revents,
    handler's pending set, errno latch, cursor walk -- produces exactly the specification's log,
    and never takes one of its "cannot happen" branches (it answers None only when it is given
    too little fuel).  C18_all_watchers_invoked is the same statement for one call of
@@ -30,7 +29,7 @@
    C18_table_consistent, C18_poll_reports, C18_new_slot_silent), and the two refutations of
    the pinned behaviour.  Implementation = model is tested (correspondence), not proved. *)
 From Coq Require Import ZArith List.
-From Tickit Require Import LoopDefs LoopSigDefs LoopSigProofs LoopSigIO LoopSigSpec LoopSigRefine LoopSigSlots LoopPipeDefs LoopPipeProofs.
+From Tickit Require Import LoopDefs LoopSigDefs LoopSigProofs LoopSigIO LoopSigSpec LoopSigRefine LoopSigSlots LoopPipeDefs LoopPipeProofs LoopPipeSnap LoopPipeRefine.
 Import ListNotations.
 Local Open Scope Z_scope.
 
@@ -70,29 +69,31 @@ Print Assumptions C18_stop_witness_fixed.
 
 (* the iteration model refines the snapshot specification: same log for every script and every
    ppoll outcome stream (SReady / SArrive / SRaise place the outcomes), with enough fuel *)
-Theorem C18_refines : forall env, env_ok env -> forall ops, Forall (op_ok env) ops ->
+Theorem C18_refines : forall env, env_ok env -> forall ops, Forall op_ok ops ->
   exists f0, forall fuel, (f0 <= fuel)%nat -> srun fixed_cfg env fuel ops = Some (xspec_run env ops).
 Proof. exact refines_xspec. Qed.
 Print Assumptions C18_refines.
 
-(* C18_refines is not vacuous: a callback environment that satisfies its hypothesis in which the
-   first of three watchers of a signal cancels its own watch and the next one and registers a
-   watch of another signal and a deferred callback; model = specification = the log shown *)
+(* a callback environment in which the first of three watchers of signal 10 cancels its own watch
+   and the next one and registers a further watch of signal 10 (not invoked by the dispatch under
+   way; invoked at the next delivery) and a deferred callback that raises the signal again;
+   model = specification = the log shown *)
 Theorem C18_refines_witness :
-  env_ok wr_env /\ Forall (op_ok wr_env) wr_ops /\
+  env_ok wr_env /\ Forall op_ok wr_ops /\
   srun fixed_cfg wr_env 50 wr_ops = Some (xspec_run wr_env wr_ops) /\
   xspec_run wr_env wr_ops =
     [OPoll (-1); OEv (mkE 0 KSig EV_FIRE 1 0 10); OEv (mkE 2 KSig EV_FIRE 1 0 10);
-     OPoll 0; OEv (mkE 4 KLater (EV_FIRE + EV_UNBIND) 2 0 0); OEv (mkE 3 KSig EV_FIRE 2 0 12);
-     OPoll 0; OEv (mkE 3 KSig EV_FIRE 3 0 12); OEv (mkE 2 KSig (EV_UNBIND + EV_DESTROY) (-1) 0 10)].
+     OPoll 0; OEv (mkE 4 KLater (EV_FIRE + EV_UNBIND) 2 0 0);
+     OPoll 0; OEv (mkE 2 KSig EV_FIRE 3 0 10); OEv (mkE 3 KSig EV_FIRE 3 0 10);
+     OEv (mkE 2 KSig (EV_UNBIND + EV_DESTROY) (-1) 0 10)].
 Proof. exact (conj wr_env_ok (conj wr_ops_ok refines_witness)). Qed.
 Print Assumptions C18_refines_witness.
 
 (* every script reaches a state that satisfies the invariant J (table consistent, identities
    unique and below the counter, every IO watch owns its slot), with no batch of deferred
    callbacks being run and nothing recorded by the handler *)
-Theorem C18_invariant_reachable : forall env, env_ok env -> forall ops, Forall (op_ok env) ops ->
-  exists s, J env s /\ drun s = [] /\ pending s = [] /\
+Theorem C18_invariant_reachable : forall env, env_ok env -> forall ops, Forall op_ok ops ->
+  exists s, J s /\ drun s = [] /\ pending s = [] /\
   exists f0, forall fuel, (f0 <= fuel)%nat -> srun_ops fixed_cfg env fuel ops = Some s.
 Proof. exact reach_J. Qed.
 Print Assumptions C18_invariant_reachable.
@@ -101,10 +102,11 @@ Print Assumptions C18_invariant_reachable.
    of that signal that are in the list at that moment are visited in registration order, and
    each one that is still live when its turn comes is invoked exactly once (x_run_sigs is the
    executable form of this sentence) -- for callbacks that cancel and register whatever they
-   like, their own watch and the next one included (act_ok: not a further watch of the signal
-   being dispatched).  The walk always terminates and never meets a freed watch. *)
-Theorem C18_all_watchers_invoked : forall env, env_ok env -> forall s, J env s ->
-  exists s', (xabs s' = x_run_sigs env (sort_z (pending s)) (xabs s) /\ pending s' = [] /\ J env s') /\
+   like, their own watch and the next one and further watches of the signal being dispatched
+   included (those wait for the next delivery).  The walk always terminates and never meets a
+   freed watch. *)
+Theorem C18_all_watchers_invoked : forall env, env_ok env -> forall s, J s ->
+  exists s', (xabs s' = x_run_sigs env (sort_z (pending s)) (xabs s) /\ pending s' = [] /\ J s') /\
   exists f0, forall fuel, (f0 <= fuel)%nat -> dispatch_signals fixed_cfg env fuel s = Some s'.
 Proof. exact dispatch_invokes_live. Qed.
 Print Assumptions C18_all_watchers_invoked.
@@ -114,6 +116,7 @@ Print Assumptions C18_all_watchers_invoked.
    IO watches); holds for both configurations *)
 Theorem C18_all_watchers_invoked_passive : forall c env fuel s,
   NoDup (map g_id (sgws s)) ->
+  (forall v, In v (sgws s) -> 0 <= g_id v < snext s) ->
   (forall v, In v (sgws s) -> forallb sig_quiet (env (g_cb v)) = true) ->
   (length (sgws s) + 1 < fuel)%nat ->
   exists s', dispatch_signals c env fuel s = Some s' /\
@@ -137,8 +140,8 @@ Proof. exact dispatch_covers. Qed.
 Print Assumptions C18_dispatch_covers.
 
 (* the seeded bound max_signum, raised where a slot is appended but not where one is reused:
-   SIGWINCH (28) first, a watch cancelled, then SIGSYS (31) into the freed slot -- watched,
-   recorded, never looked at *)
+   SIGWINCH (28) first (tickit_build), one tickit_run (its SIGINT watch takes a slot and frees it),
+   then SIGSYS (31) into the freed slot -- watched, recorded, never looked at *)
 Theorem C18_refuted_max_signum :
   In 31 (g_watched (g_run wmax_ops)) /\ g_max (g_run wmax_ops) = 28 /\
   dispatched true (g_run wmax_ops) [31] = [] /\ dispatched false (g_run wmax_ops) [31] = [31].
@@ -160,7 +163,7 @@ Print Assumptions C18_signal_reaches_refuted_pinned.
 (* once a watch is gone -- cancelled by any callback or by the program, or a deferred callback
    that has had its turn -- nothing invokes it any more, in this iteration or a later one;
    and cancelling a live IO or signal watch makes it gone.  Holds for both configurations. *)
-Theorem C18_cancelled_not_invoked : forall c env id fuel ops s s', dead s id ->
+Theorem C18_cancelled_not_invoked : forall c env id fuel ops s s', 0 <= id -> dead s id ->
   fold_left (sdo_op c env fuel) ops (Some s) = Some s' ->
   dead s' id /\ fires id (slog s') = fires id (slog s).
 Proof. exact gone_never_invoked. Qed.
@@ -246,7 +249,7 @@ Print Assumptions C18_fallback_next_iteration_dispatches.
 Theorem C18_fallback_snapshot : forall env fuel s,
   f_sigpipe false env fuel s =
   let s0 := f_arrivals (fu_pipe s (f_pipe s - 1)%nat) in
-  f_walk env fuel (match f_sgws s0 with [] => None | h :: _ => Some (g_id h) end) (f_pend s0) (fu_pend s0 []).
+  f_walk env fuel (f_next s0) (match f_sgws s0 with [] => None | h :: _ => Some (g_id h) end) (f_pend s0) (fu_pend s0 []).
 Proof. exact fallback_snapshot. Qed.
 Print Assumptions C18_fallback_snapshot.
 
@@ -262,6 +265,25 @@ Print Assumptions C18_fallback_refuted_drain_late.
 (* non-vacuity: the same two scripts on the repaired loop -- the signal watcher is invoked in
    the first iteration although the deferred callback cleared errno; the new IO watch is not
    invoked for the old descriptor's readiness *)
+(* the fallback model refines ITS snapshot specification (LoopPipeSnap.yspec_run: no cursor, no
+   running batch; the deferred callbacks and the signal watches of a dispatch are snapshots of
+   identities, each still live at its turn; a raise is recorded at once wherever it happens and
+   is dispatched by the next consumed wakeup): log equality for every callback environment and
+   every fallback script, no hypothesis; the model never takes a "cannot happen" branch *)
+Theorem C18_fallback_refines : forall env ops,
+  exists f0, forall fuel, (f0 <= fuel)%nat -> f_run false env fuel ops = Some (yspec_run env ops).
+Proof. exact fallback_refines. Qed.
+Print Assumptions C18_fallback_refines.
+
+Theorem C18_fallback_refines_witness :
+  f_run false wy_env 100 wy_ops = Some (yspec_run wy_env wy_ops) /\
+  yspec_run wy_env wy_ops =
+    [OPoll 0; OEv (mkE 0 KSig 1 1 0 10); OEv (mkE 1 KSig 1 1 0 12);
+     OPoll 0; OEv (mkE 0 KSig 1 2 0 10); OEv (mkE 2 KSig 1 2 0 10);
+     OPoll 0; OEv (mkE 0 KSig 1 3 0 10); OEv (mkE 2 KSig 1 3 0 10); OEv (mkE 3 KSig 1 3 0 10)].
+Proof. exact fallback_refines_witness. Qed.
+Print Assumptions C18_fallback_refines_witness.
+
 Example C18_nonvacuous :
   srun fixed_cfg w24_env 100 w24_ops =
     Some [OPoll 0; OEv (mkE 1 KLater 3 1 0 0); OEv (mkE 0 KSig 1 1 0 10); OPoll 0; OPoll 0] /\
